@@ -17,6 +17,7 @@ import (
 	"pgregory.net/rapid"
 	"verif.local/harness/hx"
 	simcrand "verif.local/simrt/simcrand"
+	simsync "verif.local/simrt/simsync"
 	simtime "verif.local/simrt/simtime"
 )
 
@@ -127,7 +128,8 @@ func runC19(t *testing.T, sci interface{}, keepLog bool) *hx.Outcome {
 	now := int64(1700000000)
 	simtime.Manual = func() time.Time { return time.Unix(now, 0) }
 	simcrand.SimSeed(sc.Seed)
-	defer func() { simtime.Manual = nil }()
+	simsync.SingleGoroutine = true
+	defer func() { simtime.Manual, simsync.SingleGoroutine = nil, false }()
 	sms := &fakeSMS{last: map[string]string{}}
 
 	finish := func() *hx.Outcome {
